@@ -26,3 +26,6 @@ def run(ck):
     ck.cov["rule"] = ("random sparse fermionic arrays (even/odd, pending signs, labels) over all symmetries; "
                       "transpose by every kind of permutation, tensordot in all modes/axes forms, matmul, trace, einsum")
     ck.conform(progs)
+    if ck.tier != "quick":
+        # the repository's own suite with integer data: value-level clauses on every small enough call
+        ck.suite_trace(intfill=True, limit=48)
